@@ -211,6 +211,7 @@ MUTANTS = [
     M("benign-c08-any-fn-item", ["C08"], (FE, "if self.player_entries.iter().any(|entry| entry.is_empty()) {", "if self.player_entries.iter().any(Vec::is_empty) {"), benign=True),
     M("benign-parser-merged-return", ["C05", "C06", "C09", "C10"], (TK, '                if &s[2..3] == "s" {\n                    return Ok(HandRangeToken::new(\n                        HandRangeTokenKind::SingleRankPair(RankPair::Suited(high, kicker)),\n                        parse_probability(&s[3..]),\n                    ));\n                }\n\n                return Ok(HandRangeToken::new(\n                    HandRangeTokenKind::SingleRankPair(RankPair::Ofsuit(high, kicker)),\n                    parse_probability(&s[3..]),\n                ));\n', '                let pair = if &s[2..3] == "s" {\n                    RankPair::Suited(high, kicker)\n                } else {\n                    RankPair::Ofsuit(high, kicker)\n                };\n\n                return Ok(HandRangeToken::new(\n                    HandRangeTokenKind::SingleRankPair(pair),\n                    parse_probability(&s[3..]),\n                ));\n'), benign=True),
     M("c05-merged-return-swapped", ["C05"], (TK, '                if &s[2..3] == "s" {\n                    return Ok(HandRangeToken::new(\n                        HandRangeTokenKind::SingleRankPair(RankPair::Suited(high, kicker)),\n                        parse_probability(&s[3..]),\n                    ));\n                }\n\n                return Ok(HandRangeToken::new(\n                    HandRangeTokenKind::SingleRankPair(RankPair::Ofsuit(high, kicker)),\n                    parse_probability(&s[3..]),\n                ));\n', '                let pair = if &s[2..3] == "o" {\n                    RankPair::Suited(high, kicker)\n                } else {\n                    RankPair::Ofsuit(high, kicker)\n                };\n\n                return Ok(HandRangeToken::new(\n                    HandRangeTokenKind::SingleRankPair(pair),\n                    parse_probability(&s[3..]),\n                ));\n')),
+    M("benign-c02-extract-scan-helper", ["C02", "C04", "C08"], (FE, '        let mut player_index_to_increment = None;\n\n        for i in 0..self.current_player_indexes.len() {\n            let ri = self.current_player_indexes.len() - i - 1;\n\n            if self.current_player_indexes[ri] + 1 < self.player_entries[ri].len() {\n                player_index_to_increment = Some(ri);\n\n                break;\n            }\n        }\n', '        let player_index_to_increment = self.player_to_advance();\n'), (FE, "\n#[cfg(test)]\nmod tests {", '\nimpl FlopExhaustiveEvaluatorIterator {\n    // the last player whose range still has an untried combo.\n    fn player_to_advance(&self) -> Option<usize> {\n        for i in 0..self.current_player_indexes.len() {\n            let ri = self.current_player_indexes.len() - i - 1;\n\n            if self.current_player_indexes[ri] + 1 < self.player_entries[ri].len() {\n                return Some(ri);\n            }\n        }\n\n        None\n    }\n}\n\n#[cfg(test)]\nmod tests {'), benign=True),
     M("c08-recursion", ["C08"], (FE, """        loop {
             if let Some(showdown) = self.next_deal()? {
                 return Some(showdown);
